@@ -126,7 +126,8 @@ class C01Oracle(Oracle):
 
 
 PROFILES = {
-    "faulty": {"faults": ("drop", "dup", "delay", "blackout", "rebind", "timer-late", "clock")},
+    "faulty": {"faults": ("drop", "dup", "delay", "blackout", "rebind", "timer-late", "clock"), "retry_p": 0.15,
+               "allow_vn": True},
     "fault_free": {"fault_free": True},
 }
 
